@@ -157,19 +157,16 @@ impl Consist {
 
     /// Returns number of RES-equipped locomotives
     pub fn n_res_equipped(&mut self) -> u8 {
-        match self.n_res_equipped {
-            Some(n_res_equipped) => n_res_equipped,
-            None => {
-                self.n_res_equipped = Some(self.loco_vec.iter().fold(0, |acc, loco| {
-                    acc + if loco.reversible_energy_storage().is_some() {
-                        1
-                    } else {
-                        0
-                    }
-                }));
-                self.n_res_equipped.unwrap()
+        // counted on every call: `loco_vec` is a public field and may have changed since the
+        // count was last stored
+        self.n_res_equipped = Some(self.loco_vec.iter().fold(0, |acc, loco| {
+            acc + if loco.reversible_energy_storage().is_some() {
+                1
+            } else {
+                0
             }
-        }
+        }));
+        self.n_res_equipped.unwrap()
     }
 
     pub fn set_assert_limits(&mut self, val: bool) {
